@@ -1,6 +1,21 @@
 use time::OffsetDateTime;
 
+#[cfg(gmsol_verif)]
+thread_local! {
+    static NOW_OVERRIDE: std::cell::Cell<Option<i64>> = const { std::cell::Cell::new(None) };
+}
+
+/// Verification hook: override the wall clock read by the market model on this thread.
+#[cfg(gmsol_verif)]
+pub fn verif_set_now(now: Option<i64>) {
+    NOW_OVERRIDE.with(|c| c.set(now));
+}
+
 fn now() -> i64 {
+    #[cfg(gmsol_verif)]
+    if let Some(now) = NOW_OVERRIDE.with(|c| c.get()) {
+        return now;
+    }
     OffsetDateTime::now_utc().unix_timestamp()
 }
 
